@@ -16,6 +16,10 @@ CLAIMED["C17"] = ("MIR symbolic execution (mirsym) of format_string, output-thre
     "bounded symbolic model checking of the real MIR: the stdout buffer is format_code's Ok payload (or the input when skipped), written once under one lock; nothing on Err; no fs mutation",
     "trusts rustc's MIR printer, mirsym and its summaries (into_bytes identity, Context passthrough), z3", "5/C17")
 
+CLAIMED["C19"] = ("MIR-extracted atomic-operation programs of the output thread and the logger + z3 symbolic-schedule encoding (positions in the SeqCst order as Ints); schedule replay on the cfg(stylua_verif) build",
+    "bounded symbolic model checking over ALL interleavings of k<=2 (thorough 3) results handled by the output thread and j<=1 (2) walker error logs; thread programs are regenerated from the MIR on every run; a counterexample schedule is replayed deterministically through the hooked binary",
+    "trusts rustc's MIR printer, mirsym + atomics summary, z3; single-location coherence; threadpool/crossbeam contracts", "5/C19")
+
 NOT_YET = {}
 
 NA = {
@@ -55,7 +59,7 @@ def main():
             "guard": "stylua_verif",
             "enable": "RUSTFLAGS='--cfg stylua_verif' cargo build (only the C19 replay uses it; all solver checks run on an unmodified copy of the working tree)",
             "baseline_off_cmd": "cd /repo && cargo test --workspace --no-fail-fast --offline",
-            "source_commits": [],
+            "source_commits": ["verif hook: schedulable EXIT_CODE atomic under --cfg stylua_verif (add-only, off by default)"],
             "add_only": True,
         },
         "engines": [
